@@ -10,6 +10,7 @@ correspondence of the generated Gallina with the real classmethods on boundary g
 import json
 import math
 import os
+import random as random_mod
 import re
 
 from corr.harness import COQ, VERIF, coq_build, run_model, _run, exc_name
@@ -172,8 +173,26 @@ GENERIC = [None, True, False, 0, 1, -1, 2, 255, 256, 65535, 65536, 2**31 - 1, 2*
            " 12345", "External", "Internal", "internal", b"x", [1], (1,), {"a": 1}, 3 + 0j]
 
 
+TIER = "quick"
+
+
 def grid_for(name, meta, rng):
     vals = list(GENERIC)
+    if TIER == "thorough":
+        # random values of every kind, seeded: ints of all magnitudes, floats (uniform, exponent-
+        # uniform and neighbours of half-integers at the class's scale), structured strings
+        import struct
+        r2 = random_mod.Random(hash(name) % 100003 + rng.randint(0, 10**6))
+        for _ in range(300):
+            k = r2.choice([8, 16, 31, 32, 33, 53, 63, 64, 70])
+            vals.append(r2.randint(-2**k, 2**k))
+        for _ in range(600):
+            vals.append(r2.uniform(-1000, 1000))
+            vals.append(struct.unpack("<d", struct.pack("<Q", r2.getrandbits(64)))[0])
+            vals.append((r2.randint(-22 * 10**8, 22 * 10**8) + 0.5) / r2.choice([1000.0, 60000, 100000.0]))
+        alpha = "0123456789abcdefABCDEFxX+-_ .%ptincm"
+        for _ in range(300):
+            vals.append("".join(r2.choice(alpha) for _ in range(r2.randint(0, 8))))
     d = meta["simple_types"][name]["desc"]
     m = re.match(r"\((DIntRangeB?) \((-?\d+)\) \((-?\d+)\)\)", d)
     if m:
@@ -232,6 +251,8 @@ def make_element(tag):
 
 
 def run(ck, tier, rng):
+    global TIER
+    TIER = tier
     rc, out = _run(["/venv/bin/python", os.path.join(VERIF, "tx", "tx_c11.py")], cwd=VERIF)
     if rc != 0:
         ck.violation("translator", "tx_c11 failed on the current tree: " + out[-600:],
@@ -317,7 +338,12 @@ def run(ck, tier, rng):
                 cases.append(["w", name, enc_val(v)])
                 expect.append(("w", name, v, impl_to_xml(st, v)))
         if info.get("r"):
-            for s in READ_FORMS:
+            forms = list(READ_FORMS)
+            if tier == "thorough":
+                alpha = "0123456789+-_ .%eEptincmtruefals"
+                forms += ["".join(rng.choice(alpha) for _ in range(rng.randint(0, 9))) for _ in range(400)]
+                forms += ["%d%s" % (rng.randint(-10**7, 10**7), rng.choice(["", "%", "pt", "in", "mm", ".5%", ".25pt"])) for _ in range(200)]
+            for s in forms:
                 cases.append(["r", name, s])
                 expect.append(("r", name, s, impl_from_xml(st, s)))
     diffs, first = 0, None
@@ -365,6 +391,11 @@ def run(ck, tier, rng):
     if first is not None:
         ck.notes.append("first diff: %r" % (first,))
 
+    # ---- attribute descriptors (xmlchemy Optional/RequiredAttribute): assignment histories on real
+    #      elements vs model/SimpleTypeLib.attr_step; a refused value must leave the attribute as it was
+    adiffs = attr_histories(ck, rows, meta, st_class, rng)
+    diffs += adiffs
+
     # ---- oracle: the property's statement on the implementation, per attribute row
     oracle_rows(ck, rows, meta, st_class, rng)
     for e in expect[:3] + expect[len(expect) // 2: len(expect) // 2 + 3]:
@@ -388,6 +419,87 @@ def run(ck, tier, rng):
                "roundtrip_not_covered_by_theorem": [rows[i]["sig"] for i in diag.get(7005, [])],
                "simple_types": len(meta["simple_types"]), "gallina_defs": meta["n_defs"],
                "correspondence_diffs": diffs, "exhaustive": False})
+
+
+def attr_histories(ck, rows, meta, st_class, rng):
+    cases, expect = [], []
+    for r in rows:
+        st = st_class(r["st"])
+        grid = list(st) if r["is_enum"] else grid_for(r["st"], meta, rng)
+        valid = [v for v in grid if impl_to_xml(st, v)[0] == "ok"]
+        if not valid:
+            continue
+        pick = [valid[0]] + rng.sample(grid, min(len(grid), 24)) + [valid[-1], None, valid[len(valid) // 2]]
+        pick = [v for v in pick if enc_val(v) != "o" or isinstance(v, (bytes, list, tuple, dict, complex))]
+        try:
+            el = make_element(r["tag"])
+        except Exception:  # noqa
+            continue
+        clark = _clark(r["attr"])
+        steps, vals = [], []
+        for v in pick:
+            before = el.get(clark)
+            try:
+                setattr(el, r["prop"], v)
+                out = "ok:"
+            except Exception as e:  # noqa
+                out = "err:" + exc_name(e)
+                if el.get(clark) != before or dict(el.attrib).get(clark) != before:
+                    ck.violation("attr-set-rejected-but-changed:" + ("optional" if r["kind"] == "OptionalAttribute" else "required"),
+                                 "%s.%s = %r is refused (%s) but the attribute %s changed from %r to %r" % (
+                                     r["cls"], r["prop"], v, type(e).__name__, r["attr"], before, el.get(clark)),
+                                 {"entry_point": "%s.%s (setter)" % (r["cls"], r["prop"]), "input": {"tag": r["tag"], "before": before, "value": repr(v)},
+                                  "impl_outcome": el.get(clark)})
+            cur = el.get(clark)
+            steps.append((out, cur))
+            vals.append(v)
+        ck.count(("attr-history", r["sig"]), True, "attr-history")
+        if r["is_enum"] or r.get("default") is None or not meta["simple_types"].get(r["st"], {}).get("w"):
+            continue
+        if any(isinstance(v, str) and any(ord(c) > 127 for c in v) for v in vals):
+            keep = [i for i, v in enumerate(vals) if not (isinstance(v, str) and any(ord(c) > 127 for c in v))]
+            # a non-ascii value would desynchronise the history: cut the history before the first one
+            cut = min(i for i, v in enumerate(vals) if isinstance(v, str) and any(ord(c) > 127 for c in v))
+            steps, vals = steps[:cut], vals[:cut]
+        cases.append(["a", r["st"], "r" if r["kind"] == "RequiredAttribute" else "o", r["default"], "-"] + [enc_val(v) for v in vals])
+        expect.append((r, vals, steps))
+    if not cases or not os.path.exists(os.path.join(COQ, "extract", "run_c11")):
+        return 0
+    try:
+        model_out = run_model("C11", cases)
+    except Exception as e:  # noqa
+        ck.notes.append("attribute-history model run failed: %r" % e)
+        return 0
+    diffs = 0
+    for (r, vals, steps), mo in zip(expect, model_out):
+        msteps = mo.split("|")
+        ok = len(msteps) == len(steps)
+        if ok:
+            for (out, cur), ms in zip(steps, msteps):
+                mout, _, mstate = ms.partition(" ")
+                if mout != out:
+                    ok = False
+                    break
+                if cur is None:
+                    ok = mstate == "-"
+                else:
+                    text = "".join(chr(int(t)) for t in mstate[1:].split(" ")) if len(mstate) > 1 else ""
+                    if mstate[:1] != "=":
+                        ok = False
+                    elif text.startswith(MARK):
+                        try:
+                            ok = enc_float(float(cur)) == text[1:]
+                        except ValueError:
+                            ok = False
+                    else:
+                        ok = text == cur
+                if not ok:
+                    break
+        if not ok:
+            diffs += 1
+            if diffs <= 5:
+                ck.notes.append("attr-history diff %s: values=%r impl=%r model=%s" % (r["sig"], [repr(v) for v in vals][:8], steps[:8], mo[:300]))
+    return diffs
 
 
 def _clark(attr):
@@ -433,14 +545,21 @@ def oracle_rows(ck, rows, meta, st_class, rng):
                     and v == v and abs(v) != math.inf and not r["is_enum"]:
                 from fractions import Fraction
                 q = Fraction(quantum.get(r["st"], 0)).limit_denominator(10**9)
-                a, b = Fraction(v), Fraction(back[1])
+                b = Fraction(back[1])
+                # the value assigned is either the exact number or its binary64 image (an int that
+                # the class turns into a float); either reading must agree within the quantum
+                cands = [Fraction(v)]
+                if r["lex"][0] == "double" or (r["st"] in quantum and r["st"] != "ST_TextSpacingPoint"):
+                    cands.append(Fraction(float(v)))
                 if r["lex"][0] == "double":
-                    a = Fraction(float(v))          # the attribute is a binary64 value
-                if r["st"] in ("ST_Angle", "ST_PositiveFixedAngle"):
-                    a = a % 360
-                    ok_rt = abs(a - b) <= q or abs(abs(a - b) - 360) <= q
-                else:
-                    ok_rt = abs(a - b) <= q
+                    cands = cands[1:]
+                ok_rt = False
+                for a in cands:
+                    if r["st"] in ("ST_Angle", "ST_PositiveFixedAngle"):
+                        a = a % 360
+                        ok_rt = ok_rt or abs(a - b) <= q or abs(abs(a - b) - 360) <= q
+                    else:
+                        ok_rt = ok_rt or abs(a - b) <= q
                 if not ok_rt:
                     ck.violation("rt:%s" % r["st"], "%s: %r is written %r and read back as %r (quantum %g)" % (r["st"], v, text, back[1], q),
                                  {"entry_point": r["st"], "input": repr(v), "written": text, "impl_outcome": repr(back[1])})
